@@ -277,7 +277,10 @@ def _list_cases(tier):
     for shape in ("1x2", "2x1", "2x2"):
         for flags in ("connect_all", "disconnect_all", "mixed"):
             out.append((f"{shape},{flags}", (shape, flags)))
-    return out if tier == "thorough" else [c for c in out if c[0] in ("1x2,mixed", "2x1,connect_all", "1x2,disconnect_all")]
+    # the same module named twice in one list operand (the last occurrence decides)
+    for flags in ("connect_all", "disconnect_all", "mixed", "mixed_rev"):
+        out.append((f"1x2r,{flags}", ("1x2r", flags)))
+    return out if tier == "thorough" else [c for c in out if c[0] in ("1x2,mixed", "2x1,connect_all", "1x2,disconnect_all", "1x2r,connect_all", "1x2r,mixed")]
 
 
 @contract(
@@ -285,7 +288,8 @@ def _list_cases(tier):
     targets=["rv.project:Project.connect"],
 )
 def connect_lists_on_heap(H, case):
-    """List operands on the array-theory heap: connect(F, T) with |F|, |T| in {1, 2}, distinct modules at
+    """List operands on the array-theory heap: connect(F, T) with |F|, |T| in {1, 2}, distinct modules (shape
+    '1x2r': the SAME destination named twice, the last occurrence deciding) at
     ARBITRARY positions of a project of ANY size with ANY LinksOK tables, each element optionally
     negated: afterwards LinksOK holds, every requested pair is connected (or gone if either end was
     negated) - also when some pairs of the same request were already (dis)connected - and the incoming
@@ -294,11 +298,12 @@ def connect_lists_on_heap(H, case):
 
     shape, flags = case
     nf, nt = int(shape[0]), int(shape[2])
+    rep = shape.endswith("r")  # both elements of T are the SAME module
     c = H.pctx
     heap = LinkHeap()
     p = Project()
     mods, idx = [], []
-    for i in range(nf + nt):
+    for i in range(nf + (1 if rep else nt)):
         m = Amplifier()
         k = H.int(f"i{i}", 0, None)
         c.add(k.z < heap.N)
@@ -314,7 +319,11 @@ def connect_lists_on_heap(H, case):
         c.add(cl)
     old = heap.snapshot()
     neg = {"connect_all": [False] * (nf + nt), "disconnect_all": [True] * nf + [False] * nt,
-           "mixed": [False, True, True, False][: nf] + [True, False][: nt]}[flags]
+           "mixed": [False, True, True, False][: nf] + [True, False][: nt],
+           "mixed_rev": [False] * nf + [False, True][: nt]}[flags]
+    if rep:
+        mods = mods[:nf] + [mods[nf]] * nt
+        idx = idx[:nf] + [idx[nf]] * nt
     F_ = [DisconnectingModule(m) if neg[i] else m for i, m in enumerate(mods[:nf])]
     T_ = [DisconnectingModule(m) if neg[nf + i] else m for i, m in enumerate(mods[nf:])]
 
@@ -357,6 +366,8 @@ def connect_lists_on_heap(H, case):
     IN1, nIN1 = heap.tab["in_links"], heap.len["in_links"]
     for fi in range(nf):
         for ti in range(nt):
+            if rep and ti < nt - 1:
+                continue  # the same module again later in the list: the last occurrence decides
             s, d = idx[fi].z, idx[nf + ti].z
             conn = z3.Exists([k], z3.And(0 <= k, k < nIN1[d], IN1[d][k] == s))
             want_gone = neg[fi] or neg[nf + ti]
